@@ -4,8 +4,10 @@ import (
 	"encoding/hex"
 	"encoding/pem"
 	"fmt"
+	"strings"
 	"time"
 
+	"github.com/google/go-tdx-guest/verify"
 	"verifharness/mon"
 	"verifharness/world"
 )
@@ -108,6 +110,52 @@ func c11(x *mon.Ctx) {
 			}
 		})
 		x.Require("honest-root-with-several-crl-distribution-points", n*3, 0, n*3)
+	}
+	// one options value in a long-lived verifier: an honest quote is verified, then an endpoint is down for ONE call (of the same
+	// or a higher checking level), then everything is back — the honest quote is accepted again (what the failed call fetched,
+	// or did not fetch, is no longer anybody's collateral)
+	{
+		n := 0
+		for wi := 0; wi < x.Pick(3, 12); wi++ {
+			r := x.Rand(fmt.Sprint("outage-history", wi))
+			w := richHonest(r)
+			w.Resign()
+			for _, down := range []string{"/tcb?", "/qe/identity", "pckcrl", "root-crl"} {
+				for _, lv := range [][3]int{{world.LColl, world.LCrl, world.LCrl}, {world.LCrl, world.LCrl, world.LCrl}, {world.LBase, world.LColl, world.LColl}, {world.LColl, world.LColl, world.LCrl}, {world.LBase, world.LCrl, world.LColl}} {
+					sh := &verify.Options{}
+					var outs [3]mon.Outcome
+					for step := 0; step < 3; step++ {
+						c := w.Case(lv[step], "honest-after-an-outage", "")
+						if step == 1 {
+							for u := range c.Resp {
+								if strings.Contains(u, down) || down == "root-crl" && (u == world.RootCRLURL || strings.HasSuffix(u, ".der") && !strings.Contains(u, "pckcrl")) {
+									c.Resp[u] = world.Resp{Err: "connection refused"}
+								}
+							}
+						}
+						outs[step] = mon.RunVerifyShared(c, sh)
+					}
+					param := fmt.Sprintf("w%d/%s-down-in-call-2/levels=%v", wi, down, lv)
+					prob := ""
+					switch {
+					case outs[0].Panic+outs[1].Panic+outs[2].Panic != "":
+						prob = "panic: " + outs[0].Panic + outs[1].Panic + outs[2].Panic
+					case !outs[0].Accepted:
+						prob = "harness: honest world not accepted in call 1: " + outs[0].Err
+					case !outs[2].Accepted:
+						prob = fmt.Sprintf("call 1 accepted the honest quote; in call 2 the %s endpoint was down (accepted=%v, %s); in call 3, with every endpoint back, the same options value refuses the honest quote: %s", down, outs[1].Accepted, outs[1].Err, outs[2].Err)
+					}
+					if strings.HasPrefix(prob, "harness") {
+						x.Broken(prob)
+					} else if prob != "" {
+						x.Violation("honest-after-an-outage", param, prob, "verify", w.Case(lv[2], "honest-after-an-outage", param))
+					}
+					x.Note("honest-after-an-outage", param, outs[2].Accepted, false, prob == "")
+					n++
+				}
+			}
+		}
+		x.Require("honest-after-an-outage", n, 0, n)
 	}
 	// signatures whose r or s is a small number (one or two leading zero bytes; probability 2^-8 / 2^-16 per signature, so
 	// they are ground out): the quote signature, the QE report signature and the two collateral signatures
